@@ -2,6 +2,7 @@
 (* E1 for C07: every bracket on a 64-unit lattice x every single root / triple of roots (on and between
    lattice points) x increasing/decreasing x tolerances, explored exhaustively. *)
 EXTENDS Integers, Sequences, FiniteSets, TLC
+CONSTANTS Defects
 VARIABLES cfg, left, right, fa, middle, n, stat, evals, result
 B == INSTANCE Bisection
 \* widths are powers of two >= 16 units and tol >= 1 unit, so that every midpoint the loop forms is a
